@@ -5,6 +5,12 @@
 //	  | ack <id> | rst <id> | pig <id> <tag> | resp <id> <con|non> <tag> | cancel <id> | mut <id>
 //	  | hsend <id> <deadlineNs|-> [<kind>] | burst <k>
 //	  | ping <id> <deadlineNs|-> | wcon <id> <deadlineNs|-> [<wkind>]
+//	  | hold | release
+//
+// hold: a request of the peer arrives whose application handler does not return before `release` (a slow handler: it does
+// NOT issue a request itself, so the loop over the received messages is not handed over); what the peer sends meanwhile
+// (`burst`, acknowledgements, responses) piles up in the queue of received messages (ReceivedMessageQueueSize, 16) and, beyond
+// that, in the one reader that calls Conn.Process. release: the handler returns, everything that piled up is worked off.
 //
 // ping: Conn.Ping(ctx) - a confirmable Empty message with its own pending entry, no NSTART slot; `ack` / `rst` with its id are
 // the pong. wcon: Conn.WriteMessage of a confirmable message that is NOT a request (wkind c<n> = 2.05 Content with an n-byte
@@ -109,6 +115,7 @@ type scenario struct {
 	calls   map[int]*call
 	rets    []retEntry
 	peerMID int32
+	held    chan struct{} // op `hold`: the handler of the peer's /hold request waits for this channel (closed by `release`)
 }
 
 func tokenOf(id int) message.Token {
@@ -185,6 +192,18 @@ func (sc *scenario) runWrite(c *call, f func() error) {
 // <id> (op `hsend`) and wait for its result before it returns; everything else goes to the library's default handler.
 func (sc *scenario) handler(def udpclient.HandlerFunc) udpclient.HandlerFunc {
 	return func(w *responsewriter.ResponseWriter[*udpclient.Conn], r *pool.Message) {
+		if p, err := r.Path(); err == nil && p == "/hold" {
+			sc.mu.Lock()
+			ch := sc.held
+			sc.mu.Unlock()
+			if ch != nil {
+				select {
+				case <-ch:
+				case <-sc.cc.Done():
+				}
+			}
+			return
+		}
 		if p, err := r.Path(); err == nil && strings.HasPrefix(p, "/h") {
 			if id, errA := strconv.Atoi(p[2:]); errA == nil {
 				sc.mu.Lock()
@@ -708,6 +727,21 @@ func runScenario(t *testing.T, line string) string {
 						sc.mu.Unlock()
 					}()
 				}
+			case "hold":
+				sc.mu.Lock()
+				if sc.held == nil {
+					sc.held = make(chan struct{})
+				}
+				sc.mu.Unlock()
+				sc.peerMID++
+				sc.inject(message.NonConfirmable, codes.POST, sc.peerMID, message.Token{0xfc, byte(sc.peerMID)}, "slow", "/hold")
+			case "release":
+				sc.mu.Lock()
+				if sc.held != nil {
+					close(sc.held)
+					sc.held = nil
+				}
+				sc.mu.Unlock()
 			case "burst":
 				// unrelated messages from the peer (responses nobody waits for): they only have to get through the queue
 				k, _ := strconv.Atoi(f[1])
